@@ -7,7 +7,6 @@ import (
 	"testing"
 
 	"github.com/WuKongIM/WuKongIM/pkg/zzverif/ev"
-	"github.com/WuKongIM/WuKongIM/pkg/zzverif/mc"
 )
 
 func TestVerifC02(t *testing.T) {
@@ -19,13 +18,10 @@ func TestVerifC02(t *testing.T) {
 		oC02: true, reportKF: false,
 	}
 	st := &vwStats{}
-	depth, devs := vwDebugBounds(ev.Pick(r, 4, 5), ev.Pick(r, 2, 2))
-	res := mc.Run(r, mc.System{
-		Name: "replication-world/C02", New: func() mc.Instance { return newVW(o, st) },
-		MaxDepth: depth, MaxDeviations: devs,
-		Bounds: vwBounds(o),
-		Note:   "N=3 voters, Q=2, one channel; initial state: node 1 installed under authority (1,1,1) on empty logs; |down| <= N-Q; a path ends (silently, counted) at a transition that matches the known C01 defect KF-C01-1",
-	})
+	note := "N=3 voters, Q=2, one channel; initial state: node 1 installed under authority (1,1,1) on empty logs; |down| <= N-Q; a path ends (silently, counted) at a transition that matches the known C01 defect KF-C01-1"
+	res := vwRun(r, "replication-world/C02/deep", o, st, ev.Pick(r, 4, 5), ev.Pick(r, 1, 2), note)
+	res2 := vwRun(r, "replication-world/C02/faulty", o, st, ev.Pick(r, 3, 6), ev.Pick(r, 2, 1), note)
+	res.States += res2.States
 	vwAssumptions(r)
 	vwCounters(r, st)
 	if r.Replay() != nil {
